@@ -12,6 +12,10 @@ Streams
              and near-miss class keys; clause oracle `selected_keys` written from the property text)
              extract_energy_sum / extract_energy_profile vs `extractSum` / `extractProfile` on the
              returned dictionary, and vs an exact-fraction sum of the selected entries.
+  documented: 16 pe() calls per QTools object; inputs / outputs / parameters AND op_cost of every layer of every
+             call recomputed from the documented formula on the reported data (`doc_entries`, `doc_op_cost`:
+             MAC, batch normalisation, pooling, merges of n operands = (n - 1) x count x unit).
+  merge_spec: literal loop over (extra operand, element) of every generated n-ary merge vs `opsMergeNary`.
 """
 import contextlib
 import fractions
@@ -417,6 +421,111 @@ class Gen:
     return K.Model(x_in, x), 1
 
 
+  # -- strengthening round 3: n-ary merges inside models, batch normalisation (drawn from their OWN stream)
+  MERGE_AQ = ["quantized_relu(4,1)", "quantized_relu(5,1)", "quantized_relu(6,2)", "quantized_relu(3,1)",
+              "quantized_bits(4,0,1)", "quantized_bits(6,1,1)", "quantized_bits(8,2,1)", "binary()", "ternary()",
+              "quantized_po2(4)"]
+
+  def merge_of(self, ops, cls=None):
+    """one element-wise merge layer over DISTINCT operand tensors `ops` (2..5 of them)"""
+    K = self.K
+    if cls is None:
+      cls = self.ch(["Add", "Add", "Add", "Multiply", "Multiply", "Average", "Maximum", "Minimum"])
+    self.run.count("gen_merge_%s_%d" % (cls, len(ops)))
+    return getattr(K.layers, cls)()(list(ops))
+
+  def m_merge_nary(self):
+    """element-wise merges of 2..5 DISTINCT operands inside a model: the operands are branches of one
+    trunk (QConv2D / QDense + QActivation with different output types, so the merge operator has different
+    widths and implementations: adder, multiplier, mux, xor, and-gate, shifter) or separate model inputs;
+    1-3 merge layers over random operand subsets, optionally followed by an activation; then either every
+    merge is a model output, or the merges are merged again (merge of merges), optionally followed by
+    Flatten + QDense.  (Subtract is refused by qtools' data-type map, repeated operands are de-duplicated
+    by its graph: neither is generated, see notes.)"""
+    K, Q = self.K, self.Q
+    k = self.ch([3, 3, 4, 4, 5])
+    variant = self.ch(["conv", "conv", "dense", "inputs"])
+    if variant == "inputs":
+      shape = (self.ri(1, 8),) if self.p(0.5) else (self.ri(2, 5), self.ri(2, 5), self.ri(1, 3))
+      ins = [K.layers.Input(shape) for _ in range(k)]
+      branches = [Q.QActivation(self.ch(self.MERGE_AQ))(t) for t in ins]
+      n_in = k
+    elif variant == "conv":
+      shape = (self.ri(3, 6), self.ri(3, 6), self.ri(1, 3))
+      x_in, x = self.head(shape)
+      ins, n_in = x_in, 1
+      f = self.ri(1, 4)
+      branches = []
+      for _ in range(k):
+        t = Q.QConv2D(f, self.ch([1, 3]), padding="same", kernel_quantizer=self.kq(),
+                      bias_quantizer="quantized_bits(4,0,1)", use_bias=self.p(0.7))(x)
+        branches.append(Q.QActivation(self.ch(self.MERGE_AQ))(t))
+    else:
+      x_in, x = self.head((self.ri(2, 10),))
+      ins, n_in = x_in, 1
+      u = self.ri(1, 8)
+      branches = []
+      for _ in range(k):
+        t = Q.QDense(u, kernel_quantizer=self.kq(), bias_quantizer="quantized_bits(4,0,1)")(x)
+        branches.append(Q.QActivation(self.ch(self.MERGE_AQ))(t))
+    merges = []
+    n_merges = self.ch([1, 2, 2, 3])
+    for mi in range(n_merges):
+      n = k if mi == 0 else self.ri(2, k)          # the first merge takes every branch (3..5 operands)
+      idx = sorted(int(i) for i in self.rng.permutation(k)[:n])
+      y = self.merge_of([branches[i] for i in idx])
+      if self.p(0.6):
+        y = Q.QActivation(self.ch(["quantized_relu(6,2)", "quantized_bits(8,2,1)", "quantized_relu(8,3)"]))(y)
+      merges.append(y)
+    self.run.count("gen_merge_nary_%s" % variant)
+    if len(merges) > 1 and self.p(0.6):
+      ops = list(merges)
+      if self.p(0.5):
+        ops.append(branches[self.ri(0, k - 1)])
+      y = self.merge_of(ops, cls=self.ch(["Add", "Add", "Multiply"]))     # merge of merges
+      self.run.count("gen_merge_nested")
+      if self.p(0.5):
+        y = Q.QActivation("quantized_relu(8,3)")(y)
+      if self.p(0.4):
+        y = K.layers.Flatten()(y)
+        y = Q.QDense(self.ri(1, 4), kernel_quantizer=self.kq(), bias_quantizer="quantized_bits(4,0,1)")(y)
+      outs = y
+    else:
+      outs = merges if len(merges) > 1 else merges[0]
+    return K.Model(ins, outs), n_in
+
+  def m_bn(self):
+    """(Q)BatchNormalization after conv / dense / activation, with scale / center switched off and po2
+    parameter quantizers: divider and multiplier present / absent, adder / shifter / multiplier modes"""
+    K, Q = self.K, self.Q
+    if self.p(0.6):
+      x_in, x = self.head((self.ri(3, 6), self.ri(3, 6), self.ri(1, 3)))
+      x = Q.QConv2D(self.ri(1, 4), self.ch([1, 3]), padding="same", kernel_quantizer=self.kq(),
+                    bias_quantizer="quantized_bits(4,0,1)")(x)
+    else:
+      x_in, x = self.head((self.ri(2, 10),))
+      x = Q.QDense(self.ri(1, 8), kernel_quantizer=self.kq(), bias_quantizer="quantized_bits(4,0,1)")(x)
+    for _ in range(self.ri(1, 3)):
+      r = self.ri(0, 5)
+      if r == 0:
+        x = K.layers.BatchNormalization()(x)
+      elif r == 1:
+        x = Q.QBatchNormalization()(x)
+      elif r == 2:
+        x = Q.QBatchNormalization(scale=False)(x)
+      elif r == 3:
+        x = Q.QBatchNormalization(center=False)(x)
+      elif r == 4:
+        x = Q.QBatchNormalization(gamma_quantizer="quantized_po2(4)", variance_quantizer="quantized_po2(4)",
+                                  beta_quantizer="quantized_bits(4,0,1)", mean_quantizer="quantized_bits(4,0,1)")(x)
+      else:
+        x = K.layers.BatchNormalization(scale=False, center=self.p(0.5))(x)
+      self.run.count("gen_batchnorm_variant_%d" % r)
+      if self.p(0.5):
+        x = self.act(x)
+    return K.Model(x_in, x), 1
+
+
 # ----------------------------------------------------------------------------- oracle on a real layer
 
 CONV2D = ("QConv2D", "Conv2D")
@@ -815,9 +924,10 @@ def keras_io_layers(model):
   return ins, outs
 
 
-def doc_entries(cfg, mul_factor, model, out_dict, io, opts):
-  """{layer: {"inputs"|"outputs"|"parameters": documented value}} from the REPORTED data of
-  QTools._output_dict (types, tensor shapes) and the options of ONE pe() call"""
+def doc_entries(cfg, mul_factor, model, out_dict, io, opts, op_doc=None):
+  """{layer: {"inputs"|"outputs"|"parameters"|"op_cost": documented value}} from the REPORTED data of
+  QTools._output_dict (types, tensor shapes, counts) and the options of ONE pe() call; `op_doc` = the
+  placement-independent documented op costs {layer: (family, operands, value)} of `doc_op_cost`"""
   wm, am, ms, rdwr = opts
   ins, outs = io
   res = {}
@@ -850,8 +960,96 @@ def doc_entries(cfg, mul_factor, model, out_dict, io, opts):
         e["parameters"] = par
     except (KeyError, TypeError):
       continue
+    if op_doc is not None and op_doc.get(layer.name) is not None:
+      e["op_cost"] = op_doc[layer.name][2]
     res[layer.name] = e
   return res
+
+
+ACT_CLASSES = ("QActivation", "QAdaptiveActivation", "Activation")
+BN_CLASSES = ("QBatchNormalization", "BatchNormalization")
+PRICED_MERGE = ("Add", "Multiply", "Subtract")
+PRICED_POOL = ("AveragePooling2D", "AvgPool2D", "GlobalAvgPool2D", "GlobalAveragePooling2D")
+MAC_CLASSES = ("QConv2D", "QConv1D", "QDepthwiseConv2D", "QDense", "Conv2D", "Conv1D", "DepthwiseConv2D", "Dense")
+NO_ARITHMETIC = ("Flatten", "Reshape", "MaxPooling2D", "MaxPooling1D", "UpSampling2D", "UpSampling1D",
+                 "ZeroPadding2D", "Dropout", "InputLayer")
+
+
+def doc_gate_energy(cfg, reported, gate_arg):
+  """energy of ONE application of an operator of the REPORTED type (`quantizer_type`, `bits`, `op_type` of
+  the report entry), written from the cost table's description and NOT through qenergy.OP: floating point
+  types have an adder and a multiplier polynomial per width (fp16 / fp32); for fixed-point types a real
+  multiplier costs the multiplier polynomial and every adder-like gate array (add, mux, xor, and, or,
+  shifter) the adder polynomial; every polynomial is clamped at 0.  `gate_arg` is the width the gate
+  array works on."""
+  op = reported["op_type"]
+  if reported["quantizer_type"] == "floating_point":
+    fn = getattr(cfg, "fp%d_%s" % (int(reported["bits"]), op))       # add / mul only
+  elif op == "mul":
+    fn = cfg.fpm_mul
+  elif op in ("add", "mux", "xor", "and", "or", "shifter"):
+    fn = cfg.fpm_add
+  else:
+    raise KeyError(op)
+  with np.errstate(all="ignore"):
+    return max(float(fn(gate_arg)), 0.0)
+
+
+def doc_unit_energy(cfg, reported, unit, run):
+  """gate_factor x E(reported type, reported implementation, gate_bits): the operator's relative gate cost
+  and working width are attributes of the data-type map's operator object (trusted: C16-C18), its type and
+  implementation are the REPORTED ones; where the report itself pins the width (adders and floating point
+  operators work on their output width) that is cross-checked"""
+  if unit.implemented_as() != reported["op_type"]:
+    raise KeyError("reported op_type differs from the operator object")
+  if reported["op_type"] == "add" and reported["quantizer_type"] != "floating_point" \
+      and unit.__class__.__name__ in ("Add", "Adder", "Subtractor"):
+    run.count("op_gate_width_crosscheck_%s" % ("ok" if float(unit.gate_bits) == float(reported["bits"]) else "differs"))
+  return float(unit.gate_factor) * doc_gate_energy(cfg, reported, float(unit.gate_bits))
+
+
+def doc_op_cost(cfg, layer, d, item, gv, run):
+  """(family, operand class, documented `op_cost`) of one layer, independent of qenergy.energy_estimate:
+       activation layers ......... 0
+       layers without arithmetic . 0
+       MAC layers ................ count x (unit(multiplier) + add(accumulator type, accumulator bits))
+       batch normalisation ....... count x (unit(divider) + unit(multiplier)), absent operators contribute 0
+       (Global)AveragePooling2D .. count x add(pool accumulator type, its bits)
+       Add / Multiply / Subtract . (n - 1) x count x unit(merge operator): an element-wise merge of n operand
+                                   tensors combines n - 1 of them into the running result, operation_count
+                                   is the per-operand slice
+     n = number of operand tensors of the KERAS layer; count = reported operation_count.
+     None = the class has no documented operator cost (Average / Maximum / Minimum / Concatenate, the Q
+     pooling classes, separable convolutions: `energy_estimate` leaves them at 0 — a convention, not judged)"""
+  cls = layer.__class__.__name__
+  count = int(d["operation_count"])
+  if cls in ACT_CLASSES:
+    return "activation", "1", 0.0
+  if cls in NO_ARITHMETIC:
+    return "no_arithmetic", "1", 0.0
+  if cls in MAC_CLASSES:
+    e = doc_unit_energy(cfg, d["multiplier"], gv(item, "multiplier"), run)
+    acc = d["accumulator"]
+    e += doc_gate_energy(cfg, dict(acc, op_type="add"), float(acc["bits"]))
+    return "mac", "1", count * e
+  if cls in BN_CLASSES:
+    e = 0.0
+    for key in ("internal_divide_quantizer", "internal_multiplier"):
+      if item[key]:
+        e += doc_unit_energy(cfg, d[key], item[key], run)
+    return "batchnorm", "1", count * e
+  if cls in PRICED_POOL:
+    acc = d["pool_sum_accumulator"]
+    return "avgpool", "1", count * doc_gate_energy(cfg, dict(acc, op_type="add"), float(acc["bits"]))
+  if cls in PRICED_MERGE:
+    n = len(layer.input) if isinstance(layer.input, (list, tuple)) else 1
+    if n != len(d["input_quantizer_list"]):
+      # the data-type map's graph de-duplicates repeated operands (Add()([a, a, b])): not generated
+      run.count("merge_operand_list_differs_from_keras")
+      return None
+    e = doc_unit_energy(cfg, d[cls + "_quantizer"], gv(item, "multiplier"), run)
+    return "merge", ("2" if n == 2 else "3+" if n >= 3 else "1"), (n - 1) * count * e
+  return None
 
 
 LATTICE = [(w, a, io) for w in ("dram", "sram", "fixed") for a in ("dram", "sram") for io in (True, False)]
@@ -874,7 +1072,9 @@ def run(run: core.Run, tier: str):
   gen = Gen(rng, run, K, Q)
   g2 = Gen(np.random.default_rng([int(run.seed), 1904]), run, K, Q)   # cost settings: own stream
   g3 = Gen(np.random.default_rng([int(run.seed), 1905]), run, K, Q)   # pe() histories: own stream
+  g4 = Gen(np.random.default_rng([int(run.seed), 1906]), run, K, Q)   # n-ary merge / BN models: own stream
   n_models = 150 if tier == "quick" else 900
+  n_extra = 27 if tier == "quick" else 150     # models of the round-3 builders, AFTER the main models
   run.extra["rule"] = (
       "random Keras/QKeras models (legacy tf_keras): Conv2D/QConv2D, Conv1D/QConv1D, (Q)DepthwiseConv2D, "
       "(Q)Dense (also Dense(1) on (C,1)/(1,C,1)/(C,1,1)), (Q)AveragePooling2D, (Q)GlobalAveragePooling2D, "
@@ -891,7 +1091,11 @@ def run(run: core.Run, tier: str):
       "multi-output (2-3 heads) and two-input models; HISTORIES on one QTools object: 16 pe() calls per model "
       "(the 3 compared placements, the full 12-point placement lattice in a seeded order, the first call "
       "again), every call judged entry by entry against the documented formula on _output_dict data; every "
-      "5th model against a fresh QTools twin; "
+      "5th model against a fresh QTools twin; plus 27 models (own PRNG stream) with element-wise merges of "
+      "2..5 distinct operands INSIDE the model (branches of a trunk or separate inputs, operand types fixed / "
+      "binary / ternary / po2, 1-3 merges, merges of merges, multi-output) and with (Q)BatchNormalization "
+      "variants (scale / center off, po2 parameters); op_cost of every layer of every call judged against "
+      "the documented function of the reported operator type, implementation, count and operand number; "
       "non-trivial = distinct (class, geometry) layer or distinct (model, placement) or distinct later call")
   run.assumptions += [
       "Keras compute_output_shape / conv_output_length is trusted Keras code; its result is compared with "
@@ -921,18 +1125,26 @@ def run(run: core.Run, tier: str):
   extract_lines, extract_meta = [], []
   orig_polys = None
 
-  for mi in range(n_models):
-    # the first len(builders) models take every builder once, then weighted draws
-    bi = mi if mi < len(builders) else int(rng.choice(len(builders), p=weights))
-    bname, bfn, _ = builders[bi]
+  merge_spec_lines, merge_spec_meta = [], []
+  for mi in range(n_models + n_extra):
+    if mi < n_models:
+      # the first len(builders) models take every builder once, then weighted draws
+      bi = mi if mi < len(builders) else int(rng.choice(len(builders), p=weights))
+      bname, bfn, _ = builders[bi]
+      gx = gen
+    else:
+      # round-3 builders; every draw of these models (options, placements included) comes from g4, so
+      # the main models above are exactly those of the earlier rounds
+      gx = g4
+      bname, bfn = (("bn", g4.m_bn) if (mi - n_models) % 3 == 2 else ("merge_nary", g4.m_merge_nary))
     K.backend.clear_session()
     with _quiet():
       model, n_in = bfn()
     mname = "m%d_%s" % (mi, bname)
     run.count("model_" + bname)
-    srcq = [gen.ch(SRCQ) for _ in range(n_in)]
-    for_reference = gen.p(0.12)
-    custom_cost = gen.p(0.3)
+    srcq = [gx.ch(SRCQ) for _ in range(n_in)]
+    for_reference = gx.p(0.12)
+    custom_cost = gx.p(0.3)
     process = "horowitz"
     if custom_cost:
       # a process name config_settings does not know: cfg.update keeps whatever polynomials the
@@ -943,7 +1155,7 @@ def run(run: core.Run, tier: str):
         orig_polys = {k: getattr(qsettings.cfg, k) for k in
                       ("fpm_add", "fpm_mul", "fp16_add", "fp16_mul", "fp32_add", "fp32_mul", "sram_rd", "dram_rd")}
       def rp(deg, lo, hi):
-        return np.poly1d([float(np.round(rng.uniform(lo, hi), 4)) for _ in range(deg + 1)])
+        return np.poly1d([float(np.round(gx.rng.uniform(lo, hi), 4)) for _ in range(deg + 1)])
       qsettings.cfg.fpm_add = rp(1, -0.01, 0.02)
       qsettings.cfg.fpm_mul = rp(2, -0.005, 0.01)
       qsettings.cfg.fp32_add = rp(0, 0.1, 2.0)
@@ -991,6 +1203,16 @@ def run(run: core.Run, tier: str):
                 "groups": int(getattr(layer, "groups", 1))}
         count_lines.append(line)
         count_meta.append((mname, layer.name, cls, reported, orc, line))
+      if orc is not None and orc[0] == "merge":
+        # the scalar operations of the whole n-ary merge, counted by a literal loop over (extra operand,
+        # element) on the shape of a real forward pass, vs the Lean `opsMergeNary` / `macMerge`
+        n_ops = orc[2]["n_inputs"]
+        nary = 0
+        for j in range(1, n_ops):
+          for _e in np.ndindex(*orc[2]["out"]):
+            nary += 1
+        merge_spec_lines.append({"op": "merge_spec", "shape": orc[2]["out"], "n": n_ops})
+        merge_spec_meta.append((cls, n_ops, orc[1], nary))
       if orc is not None and orc[0] != "merge":
         kind, brute, d = orc
         sl = spec_line(kind, layer, in_shapes[0])
@@ -1045,8 +1267,8 @@ def run(run: core.Run, tier: str):
                       for _, r in recs)
     placements = []
     for _ in range(3):
-      placements.append((gen.ch(["dram", "sram", "fixed"]), gen.ch(["dram", "sram"]),
-                         gen.ch([0, 0, 64, 4096, 2 ** 20, 8 * 16 * 1024 * 1024]), gen.p(0.5)))
+      placements.append((gx.ch(["dram", "sram", "fixed"]), gx.ch(["dram", "sram"]),
+                         gx.ch([0, 0, 64, 4096, 2 ** 20, 8 * 16 * 1024 * 1024]), gx.p(0.5)))
     for pi_, (wm, am, ms, rdwr) in enumerate(placements):
       err = None
       try:
@@ -1086,6 +1308,20 @@ def run(run: core.Run, tier: str):
     if any(m[4] is not None for m in energy_meta[-len(placements):]):
       io_layers = keras_io_layers(model)
       mulf = qenergy.OP["sram"]["mul_factor"]
+      # documented op costs (placement independent): from the reported operator types / counts
+      op_doc = {}
+      for layer in model.layers:
+        dd = qt._output_dict.get(layer.name)
+        if not isinstance(dd, dict) or layer not in lmap["layer_data_type_map"]:
+          continue
+        try:
+          with np.errstate(all="ignore"):
+            op_doc[layer.name] = doc_op_cost(qsettings.cfg, layer, dd, lmap["layer_data_type_map"][layer], gv, run)
+        except (KeyError, TypeError, AttributeError) as e:
+          op_doc[layer.name] = None
+          run.count("op_cost_documented_unavailable_%s_%s" % (layer.__class__.__name__, type(e).__name__))
+        if op_doc[layer.name] is None:
+          run.count("op_cost_not_documented_%s" % layer.__class__.__name__)
       n_outputs = len(model.outputs)
       history = [(plc, m[4]) for plc, m in zip(placements, energy_meta[-len(placements):])]
       walk_ms = g3.ch([0, 0, 4096, 2 ** 20])
@@ -1106,7 +1342,7 @@ def run(run: core.Run, tier: str):
         if edk is None:
           continue
         run.case(("pe_history", mname, k, opts), nontrivial=(k >= len(placements)))
-        doc = doc_entries(qsettings.cfg, mulf, model, qt._output_dict, io_layers, opts)
+        doc = doc_entries(qsettings.cfg, mulf, model, qt._output_dict, io_layers, opts, op_doc)
         tot = F(0)
         for lname, row in edk.items():
           if lname == "total_cost":
@@ -1120,13 +1356,27 @@ def run(run: core.Run, tier: str):
                   "input" if lname in io_layers[0] else "output" if lname in io_layers[1] else "inner")
           for kk, dv in doc[lname].items():
             rep = row["energy"][kk]
-            run.count("energy_documented_%s_%s" % (kk, role))
+            vkey = {"stream": "energy_documented", "entry": kk, "layer_role": role,
+                    "call": "first" if k == 0 else "later",
+                    "model_outputs": "single" if n_outputs == 1 else "multi"}
+            vdet = {}
+            if kk == "op_cost":
+              fam, operands, _ = op_doc[lname]
+              run.count("energy_documented_op_cost_%s_operands_%s" % (fam, operands))
+              vkey = {"stream": "energy_documented", "entry": kk, "op_family": fam, "operands": operands,
+                      "call": "first" if k == 0 else "later"}
+              lyr = model.get_layer(lname)
+              vdet = {"operation_count": qt._output_dict[lname]["operation_count"],
+                      "n_operand_tensors": len(lyr.input) if isinstance(lyr.input, (list, tuple)) else 1,
+                      "documented_formula": {"mac": "count x (gate_factor x E(multiplier) + E_add(accumulator))",
+                                             "merge": "(n_operands - 1) x count x gate_factor x E(merge operator)",
+                                             "batchnorm": "count x (unit(divider) + unit(multiplier))",
+                                             "avgpool": "count x E_add(pool accumulator)"}.get(fam, "0")}
+            else:
+              run.count("energy_documented_%s_%s" % (kk, role))
             if not (abs(rep - dv) <= 0.01 + 1e-9 * abs(dv)):
-              run.violate("energy_entry_is_documented_function",
-                          {"stream": "energy_documented", "entry": kk, "layer_role": role,
-                           "call": "first" if k == 0 else "later",
-                           "model_outputs": "single" if n_outputs == 1 else "multi"},
-                          {"model": mname, "layers": [(l.name, l.__class__.__name__) for l in model.layers],
+              run.violate("energy_entry_is_documented_function", vkey,
+                          {"model": mname, **vdet, "layers": [(l.name, l.__class__.__name__) for l in model.layers],
                            "output_layers": sorted(io_layers[1]), "input_layers": sorted(io_layers[0]),
                            "call_index": k, "options": {"weights_on_memory": opts[0], "activations_on_memory": opts[1],
                                                         "min_sram_size": opts[2], "rd_wr_on_io": opts[3]},
@@ -1267,6 +1517,15 @@ def run(run: core.Run, tier: str):
         run.disagree("oracle_vs_measurement", {"spec": sl, "class": cls}, emp, brute)
     else:
       run.count("twin_unavailable_%s" % kind)
+
+  # =============================================================== n-ary merges: the specification
+  outs = core.run_driver("C19", merge_spec_lines)
+  for (cls, n_ops, per_operand, nary), o in zip(merge_spec_meta, outs):
+    run.compared += 1
+    run.evaluations += 1
+    run.count("spec_merge_operands_%s" % (n_ops if n_ops < 3 else "3+"))
+    if o["mac"] != per_operand or o["nary"] != nary or nary != (n_ops - 1) * per_operand:
+      run.disagree("merge_nary_spec", {"class": cls, "n": n_ops}, [per_operand, nary], o)
 
   # =============================================================== compare: estimate.py
   outs = core.run_driver("C19", est_lines)
@@ -1425,7 +1684,7 @@ def run(run: core.Run, tier: str):
                        replay="QTools.extract_energy_profile(setting, rows)[layer]['total']"),
                   mirrored=mirrored)
   run.extra["streams"] = {"count": len(count_lines), "spec": len(spec_lines), "estimate": len(est_lines),
-                          "energy": len(energy_lines), "extract": len(extract_lines)}
+                          "energy": len(energy_lines), "extract": len(extract_lines), "merge_spec": len(merge_spec_lines)}
   if len(count_lines) < n_models or len(energy_lines) < n_models:
     raise core.InfraError("generator degenerated: %d count cases, %d energy cases for %d models"
                           % (len(count_lines), len(energy_lines), n_models))
